@@ -212,6 +212,8 @@ pub(crate) enum InnerError {
         #[snafu(backtrace, source(from(crate::meta::Error, Box::new)))]
         source: Box<crate::meta::Error>,
     },
+    /// Data source no longer available after a failed attempt to create the data set parser
+    SourceUnavailable { backtrace: Backtrace },
     /// Could not read item
     ReadItem {
         #[snafu(
@@ -448,14 +450,17 @@ where
                 odd_length,
                 charset_override,
             } => {
-                let src = src.take().unwrap();
-
-                // look up transfer syntax
+                // look up transfer syntax first,
+                // so that the reader is retained if it is not recognized
                 let ts = ts_index
                     .get(ts_uid)
                     .context(UnrecognizedTransferSyntaxSnafu {
                         ts_uid: ts_uid.to_string(),
                     })?;
+
+                // the reader is gone if a previous attempt
+                // at creating the parser has failed
+                let src = src.take().context(SourceUnavailableSnafu)?;
 
                 let mut options = LazyDataSetReaderOptions::default();
                 options.odd_length = *odd_length;
